@@ -4,6 +4,7 @@
 #include <cstdlib>
 #include <cstring>
 #include <exception>
+#include <link.h>
 #include <new>
 #include <pthread.h>
 #include <typeinfo>
@@ -25,6 +26,20 @@ int __real_pthread_rwlock_wrlock(pthread_rwlock_t *);
 int __real_pthread_rwlock_tryrdlock(pthread_rwlock_t *);
 int __real_pthread_rwlock_trywrlock(pthread_rwlock_t *);
 int __real_pthread_rwlock_unlock(pthread_rwlock_t *);
+int __real___cxa_thread_atexit(void (*)(void *), void *, void *);
+void AnnotateBenignRaceSized(char const *file, int line, void const volatile *mem, unsigned long size, char const *desc);
+}
+
+// the C++ runtime's per-thread exception state (libsupc++ unwind-cxx.h: caughtExceptions,
+// uncaughtExceptions); every fiber is a thread of its own as far as the code under test knows
+struct EhGlobals
+{
+  void *caught;
+  unsigned uncaught;
+};
+namespace __cxxabiv1
+{
+extern "C" EhGlobals *__cxa_get_globals() noexcept;
 }
 
 namespace
@@ -63,7 +78,51 @@ struct Fiber
   unsigned held = 0;
   bool joined = false;
   std::string error;
+  // what is per thread in a real program: exception-handling state, thread_local variables of
+  // the executable (with the destructors registered for them)
+  EhGlobals eh{nullptr, 0};
+  std::vector<unsigned char> tls;
+  struct TlsDtor
+  {
+    void (*fn)(void *);
+    void *obj;
+  };
+  TlsDtor dtors[32];
+  unsigned ndtors = 0;
 };
+
+// the executable's thread-local block of the (only) OS thread
+struct TlsBlock
+{
+  bool looked_up = false;
+  unsigned char *addr = nullptr; // this thread's instance
+  std::size_t memsz = 0;
+  unsigned char const *image = nullptr; // initialisation image
+  std::size_t filesz = 0;
+} g_tls;
+std::vector<unsigned char> g_main_tls;
+EhGlobals g_main_eh{nullptr, 0};
+
+int find_tls(dl_phdr_info *info, std::size_t, void *)
+{
+  // the first object reported is the executable itself
+  for (int k = 0; k < info->dlpi_phnum; ++k)
+    if (info->dlpi_phdr[k].p_type == PT_TLS)
+    {
+      g_tls.addr = static_cast<unsigned char *>(info->dlpi_tls_data);
+      g_tls.memsz = info->dlpi_phdr[k].p_memsz;
+      g_tls.filesz = info->dlpi_phdr[k].p_filesz;
+      g_tls.image = reinterpret_cast<unsigned char const *>(info->dlpi_addr + info->dlpi_phdr[k].p_vaddr);
+    }
+  return 1; // stop after the executable
+}
+
+// plain byte loops: memcpy would go through the race detector's interceptor
+__attribute__((optimize("no-tree-loop-distribute-patterns"))) void copy_bytes(unsigned char volatile *to, unsigned char const volatile *from, std::size_t n)
+{
+  for (std::size_t k = 0; k < n; ++k)
+    to[k] = from[k];
+}
 
 struct Owner
 {
@@ -115,6 +174,14 @@ std::uint64_t g_seq = 0;
 unsigned g_tsan_reports = 0;
 std::vector<void *> g_stack_pool;
 
+// wrapped calls made while no fiber runs, or by another OS thread (the watchdog), are not the
+// simulation's business
+pthread_t g_sim_thread;
+inline bool outside_simulation()
+{
+  return !g.active || g.cur < 0 || pthread_equal(pthread_self(), g_sim_thread) == 0;
+}
+
 void hash_event(unsigned fiber, unsigned kind, void const *obj)
 {
   std::size_t id = g.objects.size();
@@ -133,6 +200,26 @@ void hash_event(unsigned fiber, unsigned kind, void const *obj)
   g.res.interleaving_hash = h;
 }
 
+// per-thread state that lives at fixed addresses of the one OS thread: saved for the context
+// that stops running, loaded for the one that continues
+void swap_thread_state(int prev, int next)
+{
+  if (prev == next)
+    return;
+  EhGlobals *const eh = __cxxabiv1::__cxa_get_globals();
+  EhGlobals &save_eh = prev < 0 ? g_main_eh : g.fibers[static_cast<std::size_t>(prev)].eh;
+  EhGlobals const &load_eh = next < 0 ? g_main_eh : g.fibers[static_cast<std::size_t>(next)].eh;
+  save_eh = *eh;
+  *eh = load_eh;
+  if (g_tls.addr != nullptr && g_tls.memsz != 0)
+  {
+    std::vector<unsigned char> &save = prev < 0 ? g_main_tls : g.fibers[static_cast<std::size_t>(prev)].tls;
+    std::vector<unsigned char> const &load = next < 0 ? g_main_tls : g.fibers[static_cast<std::size_t>(next)].tls;
+    copy_bytes(save.data(), g_tls.addr, g_tls.memsz);
+    copy_bytes(g_tls.addr, load.data(), g_tls.memsz);
+  }
+}
+
 void switch_to(int next, unsigned flags)
 {
   // next == -1: the main context
@@ -142,6 +229,7 @@ void switch_to(int next, unsigned flags)
   void *to_tsan = next < 0 ? g.main_tsan : g.fibers[static_cast<std::size_t>(next)].tsan;
   if (prev >= 0 && next != prev && g.fibers[static_cast<std::size_t>(prev)].held != 0 && g.fibers[static_cast<std::size_t>(prev)].state == State::runnable)
     ++g.res.preempt_in_cs;
+  swap_thread_state(prev, next);
   g.cur = next;
   ++g.res.switches;
   __tsan_switch_to_fiber(to_tsan, flags);
@@ -153,6 +241,7 @@ void switch_to(int next, unsigned flags)
 {
   g.abandoned = true;
   g.res.detail = why;
+  swap_thread_state(g.cur, -1);
   g.cur = -1;
   __tsan_switch_to_fiber(g.main_tsan, 0);
   setcontext(&g.main_ctx);
@@ -234,7 +323,7 @@ int pick_next()
 
 void sched_point(unsigned kind, void const *obj)
 {
-  if (!g.active || g.cur < 0)
+  if (outside_simulation())
     return;
   ++g.res.steps;
   hash_event(static_cast<unsigned>(g.cur), kind, obj);
@@ -320,6 +409,15 @@ void trampoline()
   catch (...)
   {
     g.fibers[static_cast<std::size_t>(me)].error = "exception:unknown";
+  }
+  {
+    // thread exit: destructors of this fiber's thread_local objects, latest first
+    Fiber &f = g.fibers[static_cast<std::size_t>(me)];
+    while (f.ndtors != 0)
+    {
+      --f.ndtors;
+      f.dtors[f.ndtors].fn(f.dtors[f.ndtors].obj);
+    }
   }
   g.fibers[static_cast<std::size_t>(me)].state = State::done;
   must_switch();
@@ -428,6 +526,27 @@ Result run(std::vector<std::function<void()>> const &bodies, Config const &cfg)
   g.objects.reserve(4096);
   g_history.reserve(8192);
   g.main_tsan = __tsan_get_current_fiber();
+  g_sim_thread = pthread_self();
+  if (!g_tls.looked_up)
+  {
+    g_tls.looked_up = true;
+    dl_iterate_phdr(&find_tls, nullptr);
+    if (g_tls.addr != nullptr && g_tls.memsz != 0)
+      // every fiber has its own copy of this block, swapped in while it runs: the same addresses
+      // are used by all of them without being shared, which is not a race
+      AnnotateBenignRaceSized(__FILE__, __LINE__, g_tls.addr, g_tls.memsz, "per-fiber thread-local storage");
+  }
+  if (g_tls.addr != nullptr && g_tls.memsz != 0)
+  {
+    g_main_tls.assign(g_tls.memsz, 0);
+    for (Fiber &f : g.fibers)
+    {
+      // a new thread starts from the initialisation image
+      f.tls.assign(g_tls.memsz, 0);
+      for (std::size_t k = 0; k < g_tls.filesz; ++k)
+        f.tls[k] = g_tls.image[k];
+    }
+  }
   unsigned const before_reports = g_tsan_reports;
   g_first_report[0] = 0;
   // PCT: random distinct priorities, d-1 change points among the first steps
@@ -540,9 +659,24 @@ void operator delete[](void *p, std::size_t) noexcept { std::free(p); }
 // ------------------------------------------------------------------ link-time wrappers
 extern "C"
 {
+// registration of a thread_local object's destructor: inside a fiber it belongs to that fiber and
+// runs when the fiber ends (a thread exit as far as the code under test knows)
+int __wrap___cxa_thread_atexit(void (*fn)(void *), void *obj, void *dso)
+{
+  if (outside_simulation())
+    return __real___cxa_thread_atexit(fn, obj, dso);
+  Fiber &f = g.fibers[static_cast<std::size_t>(g.cur)];
+  if (f.ndtors >= 32)
+    table_overflow();
+  f.dtors[f.ndtors].fn = fn;
+  f.dtors[f.ndtors].obj = obj;
+  ++f.ndtors;
+  return 0;
+}
+
 int __wrap_pthread_mutex_lock(pthread_mutex_t *m)
 {
-  if (!g.active || g.cur < 0)
+  if (outside_simulation())
     return __real_pthread_mutex_lock(m);
   sched_point(K_LOCK, m);
   while (owner_of(m) >= 0 && owner_of(m) != g.cur)
@@ -567,10 +701,12 @@ int __wrap_pthread_mutex_lock(pthread_mutex_t *m)
       keep = "deadlock: fiber" + std::to_string(g.cur) + "->fiber" + std::to_string(g.cur) + " (locks a non-recursive mutex it already owns)";
       abandon(keep.c_str());
     }
-    for (Owner &o : g.owners)
-      if (o.m == m)
-        ++o.depth;
-    return __real_pthread_mutex_lock(m);
+    int const r = __real_pthread_mutex_lock(m);
+    if (r == 0) // (an error-checking mutex answers EDEADLK and is not acquired again)
+      for (Owner &o : g.owners)
+        if (o.m == m)
+          ++o.depth;
+    return r;
   }
   if (g.owners.size() >= g.owners.capacity())
     table_overflow();
@@ -581,7 +717,7 @@ int __wrap_pthread_mutex_lock(pthread_mutex_t *m)
 
 int __wrap_pthread_mutex_trylock(pthread_mutex_t *m)
 {
-  if (!g.active || g.cur < 0)
+  if (outside_simulation())
     return __real_pthread_mutex_trylock(m);
   sched_point(K_LOCK, m);
   if (owner_of(m) == g.cur)
@@ -605,7 +741,7 @@ int __wrap_pthread_mutex_trylock(pthread_mutex_t *m)
 
 int __wrap_pthread_mutex_unlock(pthread_mutex_t *m)
 {
-  if (!g.active || g.cur < 0)
+  if (outside_simulation())
     return __real_pthread_mutex_unlock(m);
   int const r = __real_pthread_mutex_unlock(m);
   for (std::size_t k = 0; k < g.owners.size(); ++k)
@@ -659,7 +795,7 @@ void rw_park(pthread_rwlock_t *l)
 
 int __wrap_pthread_rwlock_rdlock(pthread_rwlock_t *l)
 {
-  if (!g.active || g.cur < 0)
+  if (outside_simulation())
     return __real_pthread_rwlock_rdlock(l);
   sched_point(K_LOCK, l);
   while (rw_entry(l).writer >= 0)
@@ -674,7 +810,7 @@ int __wrap_pthread_rwlock_rdlock(pthread_rwlock_t *l)
 
 int __wrap_pthread_rwlock_tryrdlock(pthread_rwlock_t *l)
 {
-  if (!g.active || g.cur < 0)
+  if (outside_simulation())
     return __real_pthread_rwlock_tryrdlock(l);
   sched_point(K_LOCK, l);
   if (rw_entry(l).writer >= 0)
@@ -688,7 +824,7 @@ int __wrap_pthread_rwlock_tryrdlock(pthread_rwlock_t *l)
 
 int __wrap_pthread_rwlock_wrlock(pthread_rwlock_t *l)
 {
-  if (!g.active || g.cur < 0)
+  if (outside_simulation())
     return __real_pthread_rwlock_wrlock(l);
   sched_point(K_LOCK, l);
   while (rw_entry(l).writer >= 0 || rw_entry(l).nreaders != 0)
@@ -700,7 +836,7 @@ int __wrap_pthread_rwlock_wrlock(pthread_rwlock_t *l)
 
 int __wrap_pthread_rwlock_trywrlock(pthread_rwlock_t *l)
 {
-  if (!g.active || g.cur < 0)
+  if (outside_simulation())
     return __real_pthread_rwlock_trywrlock(l);
   sched_point(K_LOCK, l);
   if (rw_entry(l).writer >= 0 || rw_entry(l).nreaders != 0)
@@ -712,7 +848,7 @@ int __wrap_pthread_rwlock_trywrlock(pthread_rwlock_t *l)
 
 int __wrap_pthread_rwlock_unlock(pthread_rwlock_t *l)
 {
-  if (!g.active || g.cur < 0)
+  if (outside_simulation())
     return __real_pthread_rwlock_unlock(l);
   int const res = __real_pthread_rwlock_unlock(l);
   RwOwner &r = rw_entry(l);
